@@ -162,6 +162,9 @@ func TestC14(t *testing.T) {
 			compare(r, cid, res.spec, ref, res.fps, tf)
 		}
 
+		// ---- file-system access during block execution (system-call trace of one more replica)
+		traceReplica(r, cid, tapePath, filepath.Join(tmp, fmt.Sprintf("trace-%d", si)), ref, tf)
+
 		// ---- race detector pass
 		if bin := os.Getenv("VERIF_RACE_BIN"); bin != "" {
 			raceTape, raceRef := tapePath, ref
@@ -451,7 +454,13 @@ func childReplay() {
 		fmt.Println("child: cannot create output:", err)
 		os.Exit(3)
 	}
+	markers := os.Getenv("C14_MARKERS") == "1"
 	_, fps, err := Replay(tf, func(i int, n *core.Node) {
+		if markers && i == 0 {
+			// visible in a system-call trace: from here (the application is constructed, genesis and the first block
+			// are done) to the end marker the process only executes blocks
+			_, _ = os.Stat("/c14-marker-begin")
+		}
 		if sleep > 0 {
 			time.Sleep(time.Duration(sleep) * time.Millisecond)
 		}
@@ -460,6 +469,9 @@ func childReplay() {
 			debug.FreeOSMemory()
 		}
 	})
+	if os.Getenv("C14_MARKERS") == "1" {
+		_, _ = os.Stat("/c14-marker-end")
+	}
 	for _, fp := range fps {
 		bz, _ := json.Marshal(fp)
 		fmt.Fprintln(out, string(bz))
@@ -649,4 +661,117 @@ func shortFn(f string) string {
 		f = f[i+len("teleport-network/teleport/"):]
 	}
 	return f
+}
+
+// traceReplica replays the tape in a child process under strace (file-name system calls only) with working directory,
+// HOME and TMPDIR pointing into a fresh private tree. Between the two markers the child is executing blocks: every
+// path it looks up there is an observation of "block processing depends on the local file system". Look-ups below
+// the private tree (relative paths included) are violations - whatever is or is not found there can differ from node
+// to node; look-ups elsewhere (outside /proc, /sys, /dev and the time-zone database) are listed in the evidence.
+func traceReplica(r *core.Run, cid, tape, root string, ref []Fingerprint, tf *TapeFile) {
+	strace, err := exec.LookPath("strace")
+	if err != nil {
+		r.Count("trace_replica_skipped_no_strace", 1)
+		return
+	}
+	cwd, home, tmpd := filepath.Join(root, "cwd"), filepath.Join(root, "home"), filepath.Join(root, "tmp")
+	for _, d := range []string{cwd, home, tmpd} {
+		_ = os.MkdirAll(d, 0o755)
+	}
+	logPath, out := filepath.Join(root, "strace.log"), filepath.Join(root, "out.jsonl")
+	cmd := exec.Command(strace, "-f", "-qq", "-e", "trace=%file,getrandom,socket,connect", "-o", logPath, os.Args[0], "-test.run", "^TestC14$", "-test.timeout", "0")
+	cmd.Dir = cwd
+	cmd.Env = buildEnv(envSpec{env: map[string]string{"HOME": home, "TMPDIR": tmpd, "GOMAXPROCS": "4"}}, map[string]string{"C14_CHILD": "replay", "C14_TAPE": tape, "C14_OUT": out, "C14_MARKERS": "1"})
+	bz, err := cmd.CombinedOutput()
+	if err != nil {
+		// ptrace may be unavailable in a sandbox: not a verdict about teleport
+		r.Count("trace_replica_failed_to_run", 1)
+		fmt.Println("NOTE trace replica:", err, tailStr(string(bz), 300))
+		return
+	}
+	if fps, err := readFingerprints(out); err == nil {
+		compare(r, cid, envSpec{name: "traced-private-cwd-home-tmp"}, ref, fps, tf)
+		r.Count("replicas_compared", 1)
+	}
+	f, err := os.Open(logPath)
+	if err != nil {
+		r.Count("trace_replica_failed_to_run", 1)
+		return
+	}
+	defer f.Close()
+	sc := bufio.NewScanner(f)
+	sc.Buffer(make([]byte, 1<<20), 1<<24)
+	re := regexp.MustCompile(`^\d+\s+(\w+)\((?:AT_FDCWD, )?"((?:[^"\\]|\\.)*)"`)
+	sysRe := regexp.MustCompile(`^\d+\s+(getrandom|socket|connect)\(`)
+	entropy := map[string]int{}
+	inside, seenBegin, seenEnd := false, false, false
+	private := map[string]string{} // pattern -> example
+	other := map[string]int{}
+	n := 0
+	for sc.Scan() {
+		line := sc.Text()
+		if strings.Contains(line, "/c14-marker-begin") {
+			inside, seenBegin = true, true
+			continue
+		}
+		if strings.Contains(line, "/c14-marker-end") {
+			inside, seenEnd = false, true
+			continue
+		}
+		if !inside {
+			continue
+		}
+		if sm := sysRe.FindStringSubmatch(line); sm != nil {
+			// randomness from the kernel or network access while executing blocks
+			entropy[sm[1]]++
+			continue
+		}
+		m := re.FindStringSubmatch(line)
+		if m == nil {
+			continue
+		}
+		n++
+		call, path := m[1], m[2]
+		abs := path
+		if !filepath.IsAbs(abs) {
+			abs = filepath.Join(cwd, abs)
+		}
+		switch {
+		case strings.HasPrefix(abs, root+"/"):
+			rel := strings.TrimPrefix(abs, root+"/")
+			pat := call + "/" + regexp.MustCompile(`[0-9a-f]{8,}`).ReplaceAllString(rel, "<hex>")
+			if _, ok := private[pat]; !ok {
+				private[pat] = line
+			}
+		case strings.HasPrefix(abs, "/proc/"), strings.HasPrefix(abs, "/sys/"), strings.HasPrefix(abs, "/dev/"),
+			strings.Contains(abs, "zoneinfo"), abs == "/etc/localtime":
+		default:
+			other[call+" "+abs]++
+		}
+	}
+	if !seenBegin || !seenEnd {
+		r.Count("trace_replica_markers_missing", 1)
+		return
+	}
+	r.Eval("trace/"+cid, true)
+	r.Count("trace_file_syscalls_during_block_execution", n)
+	var otherList []string
+	for k := range other {
+		otherList = append(otherList, k)
+	}
+	sort.Strings(otherList)
+	r.Set("trace_paths_outside_private_tree_"+strings.ReplaceAll(cid, "/", "_"), firstN(otherList, 40))
+	for call, c := range entropy {
+		r.Violation(cid, "syscall-during-block-execution/"+call, map[string]interface{}{"count": c,
+			"meaning": "while executing blocks the node asked the kernel for randomness / opened a network connection: neither is part of the replicated input"})
+	}
+	var pats []string
+	for k := range private {
+		pats = append(pats, k)
+	}
+	sort.Strings(pats)
+	for _, pat := range pats {
+		r.Violation(cid, "fs-access-during-block-execution/"+pat, map[string]interface{}{"syscall_line": private[pat],
+			"meaning": "while executing blocks the node looked up a path below its working directory / HOME / TMPDIR: what is found there differs from node to node"})
+	}
 }
